@@ -18,6 +18,7 @@ EXPLANATION = (
     "arm; (R4) the set literal evaluator compares every element's kind with the first and exits with Err before constructing the set. Not decided: "
     "Hash/Eq agreement on values (+-0.0, NaN), comprehension semantics."
     " (R5) a comprehension generator's source expression is evaluated once per binding environment, unconditionally inside the loop over the environments."
+    ' (R6) over (kinds equal, set contains element) the ∈ kernel is `kinds equal AND contains` and the ∉ kernel is its exact negation.'
 )
 
 ORACLE = {
